@@ -49,6 +49,9 @@ def _serialize_ds9(regions, precision=8):
     for region in region_data:
         region_meta = deepcopy(region['meta'])
         region_meta.pop('tag', None)  # "tag" cannot be in global metadata
+        # the include/exclude sense is per region: a region line without a
+        # sign is read as included whatever a global line says
+        region_meta.pop('include', None)
         all_meta.append(region_meta)
 
     global_meta = dict(set.intersection(*[set(meta_dict.items())
